@@ -5,6 +5,7 @@ from __future__ import annotations
 import random
 import time
 from collections.abc import Iterable
+from threading import Lock
 from typing import Final
 
 from .interfaces.mailbox import MailboxInterface
@@ -12,6 +13,9 @@ from .parsing.specials import Flag, ObjectId
 from .parsing.specials.flag import Recent
 
 __all__ = ['MailboxSnapshot']
+
+_uid_validity_lock = Lock()
+_uid_validity_last = 0
 
 
 class MailboxSnapshot(MailboxInterface):
@@ -60,10 +64,22 @@ class MailboxSnapshot(MailboxInterface):
         """Generate a new UID validity value for a mailbox, where the first
         two bytes are time-based and the second two bytes are random.
 
+        The value is also greater than the value generated before it, so that
+        mailboxes created within the same second, where only the random bytes
+        differ, never get the same value.
+
         """
+        global _uid_validity_last
         time_part = int(time.time()) % 65535
         rand_part = random.randint(0, 65535)  # noqa: S311
-        return (time_part << 16) + rand_part
+        uid_validity = (time_part << 16) + rand_part
+        with _uid_validity_lock:
+            if uid_validity <= _uid_validity_last:
+                uid_validity = _uid_validity_last + 1
+                if uid_validity > 0xFFFFFFFF:
+                    uid_validity = 1
+            _uid_validity_last = uid_validity
+        return uid_validity
 
     @property
     def flags(self) -> frozenset[Flag]:
